@@ -52,7 +52,7 @@ theorem optNonTag_eq {δ L : Nat} {x y : Option NonTagOutline} (h : OptRel (NonT
   · simp [(hr.val rfl).1]
 
 section
-variable {env : Env κ} {inpS inpW : Bytes} {δ : Nat} {K : Nat → κ → κ → Prop} {Loc : κ → Nat → Prop}
+variable {env : Env κ} {inpS inpW : Bytes} {δ : Nat} {K : Nat → κ → κ → Prop} {Loc : κ → Nat → Nat → TextType → Prop}
 
 /-- the standing assumptions of an action step in lexer mode (no text debt) -/
 structure LexPre (δ : Nat) (K : Nat → κ → κ → Prop) (ab : Ab) (cs cw : Common) (ls lw : LexRegs) (xs xw : Ctx κ) : Prop where
@@ -536,7 +536,7 @@ theorem lexAct_sim (F : Frame inpS inpW δ) (hops : OpsSim env.ops inpS inpW δ 
     {ab ab' : Ab} (habs : absAct a ab = some ab') {cs cw : Common} {ls lw : LexRegs} {xs xw : Ctx κ}
     (hc : CRel δ 0 cs cw) (hl : LexRel δ d ab cs.nextPos ls lw) (hsim : xw.sim = xs.sim)
     (hpc : xs.prevConsumed = xw.prevConsumed + δ) (hK : K d xs.sink xw.sink)
-    (hloc : 0 < d → Loc xs.sink ls.lexemeStart)
+    (hloc : 0 < d → Loc xs.sink xs.prevConsumed ls.lexemeStart cs.lastTextType)
     (hd : d = 0 ∨ a = .emitText ∨ a = .emitTextAndEof)
     (hin : readsInp a = true → (cs.nextPos ≤ inpS.length ∨ Closed inpS inpW δ)) :
     ActSim δ K ab' (qRequired a) (lexAct env a inpS cs ls xs) (lexAct env a inpW cw lw xw) := by
